@@ -148,7 +148,9 @@ def python_advance(ctx: Ctx, py: PyProgram) -> None:
     cycle = fn.args.args[1].arg
     n = 0
     for timer, src, nxt, per in (("MTI", "TimerSource.MTI", "self._next_mti", "self.mti_period"), ("STI", "TimerSource.STI", "self._next_sti", "self.sti_period")):
-        fired = [(c, c.lineno) for c in ast.walk(fn) if py_is_call(c, "fired.append") and c.args and unparse(c.args[0]) == src]
+        returned = {unparse(r.value) for r in ast.walk(fn) if isinstance(r, ast.Return) and isinstance(r.value, ast.Name)}
+        fired = [(c, c.lineno) for c in ast.walk(fn) if isinstance(c, ast.Call) and isinstance(c.func, ast.Attribute) and c.func.attr in ("append", "add") and unparse(c.func.value) in returned and c.args and unparse(c.args[0]) == src]
+        fired += [(y, y.lineno) for y in ast.walk(fn) if isinstance(y, ast.Yield) and y.value is not None and unparse(y.value) == src]
         writes = []
         for st in ast.walk(fn):
             tgt = None
@@ -241,9 +243,9 @@ def isr_bits(ctx: Ctx, py: PyProgram, rs: RustProgram) -> None:
     for c in ast.walk(tf):
         if py_is_call(c, "self._set_isr_bits"):
             node = gp.node_of(c)
-            gs = [unparse(a) for a, pol, _o in gp.guards_of(node) if isinstance(a, ast.AST) and pol]
             val = PyEval(py, mod).eval(c.args[0])
-            src = [t for t in gs if t.startswith("source is TimerSource.")]
+            src = [unparse(a.comparators[0]) for a, pol, _o in gp.guards_of(node) if isinstance(a, ast.Compare) and pol and len(a.ops) == 1 and isinstance(a.ops[0], (ast.Is, ast.Eq))
+                   and isinstance(a.left, ast.Name) and unparse(a.comparators[0]).startswith("TimerSource.")]
             if not src:
                 continue  # KEYI path, checked in C14
             n += 1
